@@ -306,6 +306,17 @@ pub fn run_c19(ctx: &mut Ctx) {
                     .join(" ")
             })
             .collect();
+        // lines that are a single character after cleaning (one code point, but for a multi-byte one several byte
+        // pairs), alone or repeated so often that their pairs are the most frequent ones; blank lines
+        let mut lines = lines;
+        if i % 3 == 1 {
+            let ch = ["\u{e4}", "\u{20ac}", "\u{1F600}", "a", "\u{e9}"][ctx.rng.random_range(0..5)];
+            for _ in 0..ctx.rng.random_range(1..=6) {
+                let l = match ctx.rng.random_range(0..4) { 0 => format!("  {ch}\t"), 1 => String::new(), _ => ch.to_string() };
+                let at = ctx.rng.random_range(0..=lines.len());
+                lines.insert(at, l);
+            }
+        }
         let n = [0usize, 1, 2, 4, 60, 124, 128][ctx.rng.random_range(0..7)];
         let norm = ctx.rng.random_bool(0.5);
         // the same word in two spellings that the normalisation unifies, on one line (a with diaeresis precomposed
